@@ -60,5 +60,5 @@ def check(res):
     helpers_no_panic(res)
 
 
-PROPFILE = None
+PROPFILE = "theories/Properties/C17.v"
 replay = genprop.replay
